@@ -37,6 +37,7 @@ GLYPH_NAMES = ["A", "B", "C", "D"]
 BASES = ["A", "B"]          # the only glyph names components reference (cross-link cases); hosts are the others
 LAYER_NAMES = ["back", "sketch", "L3"]
 NOSUCH = [Atom("err"), Atom("NoSuchObject")]
+DETACHED = [Atom("err"), Atom("Detached")]
 
 # parent <- child registrations made by the begin...Observation methods: (observer kind, observable kind) -> names
 REG_TABLE = {
@@ -150,6 +151,7 @@ class Shadow(object):
             la = self.alloc("layer", "public.default")
             self.attach(ls, la)
             self.unloaded[la] = []
+            self.attach(f, self.alloc("lib"))
             return True
         if k == "openFont":
             f = self.alloc("font")
@@ -159,6 +161,7 @@ class Shadow(object):
                 la = self.alloc("layer", lspec["name"])
                 self.attach(ls, la)
                 self.unloaded[la] = sorted(lspec["glyphs"])
+            self.attach(f, self.alloc("lib"))
             return True
         if k == "newLayer":
             f, name = op[1], op[2]
@@ -506,7 +509,8 @@ class Gen(object):
 
 
 def gen_random_case(rng, maxlen, xlink=False):
-    disk = gen_disk(rng) if rng.random() < 0.4 else None
+    # cross-link cases use fonts built in memory: a component whose base glyph is only on disk loads it
+    disk = gen_disk(rng) if (not xlink and rng.random() < 0.4) else None
     g = Gen(rng, disk, xlink)
     g.disk_layer = {}
     if disk is not None:
@@ -534,6 +538,43 @@ def generate(rng, tier):
     n, maxlen = (400, 40) if tier == "quick" else (6000, 80)
     for i in range(n):
         yield gen_random_case(rng, maxlen, xlink=(i % 5 == 4))
+
+
+# ---------------------------------------------------------------------------------------
+# model side
+# ---------------------------------------------------------------------------------------
+
+def enc_op(op, case):
+    k = op[0]
+    if k == "openFont":
+        return [Atom("openFont"), [[l["name"], sorted(l["glyphs"])] for l in case["disk"]["layers"]]]
+    if k in ("newLayer", "delLayer", "renameLayer", "newGlyph", "delGlyph", "renameGlyph"):
+        return [Atom(k), op[1], op[2]]
+    if k == "getGlyph":
+        return [Atom(k), op[1], op[2], list(op[3])]
+    if k == "insertGlyph":
+        return [Atom(k), op[1], op[2], opt(op[3])]
+    if k == "new":
+        return [Atom(k), Atom(op[1])]
+    if k in ("insert", "remove"):
+        return [Atom(k), op[1], op[2]]
+    if k == "clear":
+        return [Atom(k), op[1], Atom(op[2])]
+    if k == "clearAll":
+        return [Atom(k), op[1]]
+    if k == "setList":
+        return [Atom(k), op[1], Atom(op[2]), list(op[3])]
+    if k == "touch":
+        return [Atom(k), op[1], Atom(op[2])]
+    if k == "mutate":
+        return [Atom(k), op[1]] + ([Atom("nolog")] if case.get("xlink") else [])
+    if k in ("newFont", "newGlyphObj", "clean", "dump"):
+        return [Atom(k)]
+    raise ValueError(op)
+
+
+def model_lines(case):
+    return [enc_op(op, case) for op in case["ops"]]
 
 
 # ---------------------------------------------------------------------------------------
@@ -633,6 +674,9 @@ class World(object):
         self.reg(font.layers, "layerSet")
         for name in font.layers.layerOrder:
             self.reg(font.layers[name], "layer")
+        # the font lib is built on first access, which the glyph order bookkeeping does on the first glyph
+        # added / deleted / renamed: build it at once so that its number does not depend on that
+        self.reg(font.lib, "lib")
         return f
 
     def reg_glyph_children(self, glyph, with_singletons=True):
@@ -721,15 +765,22 @@ class World(object):
             return ok
         if k == "newGlyph":
             layer = self.get(op[1], ["layer"])
+            if layer.layerSet is None:
+                return DETACHED     # operations on a layer that was deleted from its font: outside the domain
             return [Atom("id"), self.reg(layer.newGlyph(op[2]), "glyph")]
         if k == "getGlyph":
             layer = self.get(op[1], ["layer"])
+            if layer.layerSet is None:
+                return DETACHED     # operations on a layer that was deleted from its font: outside the domain
             g = layer[op[2]]
+            len(g)          # contours of a loaded glyph are built on first access: build them now
             n = self.reg(g, "glyph")
             self.reg_glyph_children(g)
             return [Atom("id"), n]
         if k == "delGlyph":
             layer = self.get(op[1], ["layer"])
+            if layer.layerSet is None:
+                return DETACHED     # operations on a layer that was deleted from its font: outside the domain
             del layer[op[2]]
             return ok
         if k == "renameGlyph":
@@ -738,6 +789,8 @@ class World(object):
         if k == "insertGlyph":
             layer = self.get(op[1], ["layer"])
             src = self.get(op[2], ["glyph"])
+            if layer.layerSet is None:
+                return DETACHED     # operations on a layer that was deleted from its font: outside the domain
             had_image, had_lib = src._image is not None, src._lib is not None
             dest = layer.insertGlyph(src, name=op[3])
             n = self.reg(dest, "glyph")
